@@ -151,7 +151,7 @@ class Harness:
             box["exc"] = "%s: %s" % (type(e).__name__, e)
 
     def connection(self, script, app, peer=("127.0.0.1", 50000), mode="halfclose", segments=None,
-                   timeout=4.0, partial_read=0):
+                   timeout=4.0, partial_read=0, read_delay=0.0):
         """Run one client connection. script: bytes the client sends. Returns dict."""
         self.worker.wsgi = app
         self.worker.alive = True if getattr(self, "_keep_alive_flag", True) else self.worker.alive
@@ -225,6 +225,8 @@ class Harness:
                     pass
                 csock.close()
             else:
+                if read_delay:
+                    time.sleep(read_delay)      # a slow reader: the server's send buffer fills up first
                 while True:
                     try:
                         d = csock.recv(65536)
